@@ -576,7 +576,12 @@ func (nz *Normalizer) siteEdit(fset *token.FileSet, s *nfSite) (textEdit, map[st
 			}
 		case *ast.CallExpr:
 			if x.Fun == child {
-				return textEdit{}, nil, "call of the result"
+				// method call on the result: the receiver is evaluated before the arguments in both forms
+				if _, isSel := child.(*ast.SelectorExpr); !isSel || nres != 1 {
+					return textEdit{}, nil, "call of the result"
+				}
+				child = p
+				continue
 			}
 			if !isSimpleExpr(x.Fun) {
 				return textEdit{}, nil, "evaluation order"
@@ -816,6 +821,7 @@ func (nz *Normalizer) siteEdit(fset *token.FileSet, s *nfSite) (textEdit, map[st
 	// ---- receiver and arguments --------------------------------------------------------------------
 	type bind struct{ name, typ, arg string }
 	var binds []bind
+	recvHoist := ""
 	nz.counter++
 	id := "inl" + strconv.Itoa(nz.counter)
 	if c.decl.Recv != nil {
@@ -827,15 +833,19 @@ func (nz *Normalizer) siteEdit(fset *token.FileSet, s *nfSite) (textEdit, map[st
 		if selInfo == nil || len(selInfo.Index()) != 1 {
 			return textEdit{}, nil, "promoted method"
 		}
-		if !isSimpleExpr(sel.X) {
-			// the receiver is evaluated first in both forms; allow calls without further operands only
-			if _, isCall := sel.X.(*ast.CallExpr); isCall {
-				return textEdit{}, nil, "receiver is a call"
-			}
-		}
 		rt := sig.Recv().Type()
 		xt := info.TypeOf(sel.X)
 		rtxt := text(src, sel.X)
+		if !isSimpleExpr(sel.X) {
+			// the receiver expression is evaluated first in both forms: bind it to a temporary up front
+			if _, isCall := ast.Unparen(sel.X).(*ast.CallExpr); isCall {
+				if tup, isT := xt.(*types.Tuple); isT && tup.Len() != 1 {
+					return textEdit{}, nil, "receiver is a multi-value call"
+				}
+				recvHoist = fmt.Sprintf("%s_rcv := %s\n_ = %s_rcv\n", id, rtxt, id)
+				rtxt = id + "_rcv"
+			}
+		}
 		switch {
 		case types.Identical(rt, xt):
 		case isPtrTo(rt, xt):
@@ -1201,6 +1211,9 @@ func (nz *Normalizer) siteEdit(fset *token.FileSet, s *nfSite) (textEdit, map[st
 			hoistRepls = append(hoistRepls, spanRepl{off(h.Pos()) - off(stmt.Pos()), off(h.End()) - off(stmt.Pos()), name})
 		}
 		pre = hb.String() + pre
+	}
+	if recvHoist != "" {
+		pre = recvHoist + pre
 	}
 
 	var out string
